@@ -57,8 +57,8 @@ NothingLost == Handed = free \cup {held[s] : s \in Live}
 View == <<nxt, free, {held[s] : s \in Live}>>
 
 \* edge dump (operation sequences for the real-code replay near 2^31 - 1)
-AObs == [nxt |-> nxt, free |-> free, held |-> held]
-Dump == PrintT(<<"EDGE", ToJson([from |-> AObs, op |-> [op |-> out'.op, s |-> out'.s, res |-> out'.res], to |-> AObs'])>>)
+AObs == [nxt |-> nxt, free |-> free, hs |-> {held[s] : s \in Live}]
+Dump == PrintT(<<"EDGE", ToJson([from |-> AObs, op |-> [op |-> out'.op, z |-> out'.z, res |-> out'.res], to |-> AObs'])>>)
 InitDump == Init /\ PrintT(<<"INIT", ToJson(AObs)>>)
 SpecDump == InitDump /\ [][Next]_vars
 =============================================================================
